@@ -48,6 +48,17 @@ def run(tier):
         full["size_events"] += len(sizes)
         full["l1a_at_capacity"] += sum(1 for s in sizes if s[0] == capa)
         full["hot_at_hard_limit"] += sum(1 for s in sizes if s[2] == hard)
+    # mirror entries that cannot be drained (planted orphans with a payload the canonical store refuses): the drain puts them
+    # back, and an insert whose emergency drain achieved nothing is rejected - the bound must hold when that insert returns
+    for i, (capa, hard, depth, pokes) in enumerate([(1, 1, 8, 2), (1, 2, 10, 2)]):
+        r = tc.generate(tier, capa, hard, n // 4, depth, pokes, seed_off=150 + i, bad=True)
+        ck.add_tlc("Tiered simulate with undrainable mirror entries capa=%d hard=%d" % (capa, hard), r)
+        stats, nev, sizes = judge(ck, r.json_lines, capa, hard, "bad%d" % i)
+        tot_ev += nev; nb += len(r.json_lines)
+        full["size_events"] += len(sizes)
+        full["hot_at_hard_limit"] += sum(1 for s in sizes if s[2] == hard)
+        full["behaviours_with_undrainable_entries"] = full.get("behaviours_with_undrainable_entries", 0) + sum(
+            1 for b in r.json_lines if any(st["t"] == "poke_bad" for st in b["steps"]))
     # query-result cache bound under searches (search lab): TieredSearch.tla behaviours incl. the exhaustive suffixes
     import search_common as sc
     from vlib import tlc as _tlc
